@@ -741,7 +741,16 @@ def glue_trio() -> None:
 
             # Find the system task that matches this call
             for task in runner.system_nursery.child_tasks:  # pragma: no branch
-                if task.context is message.context:  # pragma: no branch
+                # The task normally runs in the context that the message
+                # carries, but while it is hosting a reentrant
+                # from_thread.run() call made by a thread that it spawned,
+                # Trio temporarily swaps in another context. The message
+                # itself is still the 'self' of the task's run_system() frame.
+                task_frame = getattr(task.coro, "cr_frame", None)
+                if task.context is message.context or (
+                    task_frame is not None
+                    and task_frame.f_locals.get("self") is message
+                ):
                     frame.hide = True
                     return task.coro
 
